@@ -780,14 +780,14 @@ static void pairColCok(Rng& r, Ctx& c)
 
 // kriging() with rank_colcok: KrigingSystem::_lhsCalcul hands the conventional rank -1 of the collocated datum to
 // ACov::load(), which indexes _p1As[-1] (UBSan pointer-overflow / out-of-bounds read): every collocated kriging dies.
-// The pair is therefore visited in 1 case out of 25 only; set to true to drop it altogether.
+// (open finding, crash key ...:ACov::load). The pair is therefore visited in 1 case out of 50 only; set to true to drop it.
 static const bool AVOID_COLCOK_KRIGING = false || getenv("C04_DEV_AVOID") != nullptr; // env: developer runs only
 
 static void run_case(Rng& r, Ctx& c)
 {
   int pair = (int)(r.next() % 4);
   if (pair == 3) pair = 4;
-  if (!AVOID_COLCOK_KRIGING && r.coin(0.04)) pair = 3;
+  if (!AVOID_COLCOK_KRIGING && r.coin(0.02)) pair = 3;
   switch (pair)
   {
     case 0: pairUniqueMoving(r, c); break;
